@@ -199,6 +199,9 @@ func decryptMsg(
 	}
 
 	checksumLength := ikesaKey.IntegInfo.GetOutputLength()
+	if len(encryptedPayload.EncryptedData) < checksumLength {
+		return nil, errors.Errorf("decryptMsg(): No sufficient bytes to get checksum")
+	}
 	// Checksum
 	checksum := encryptedPayload.EncryptedData[len(encryptedPayload.EncryptedData)-checksumLength:]
 
